@@ -598,6 +598,48 @@ func Schedule(base uint64) map[string]map[string]uint64 {
 	return s
 }
 
+// FlatSchedule is a schedule whose fields all equal v, except that the per-byte field named in dev
+// (if any) and every function price are raised by delta - a change that moves some prices and
+// keeps others equal.
+func FlatSchedule(v uint64, dev string, delta uint64) map[string]map[string]uint64 {
+	s := Schedule(0)
+	for sec := range s {
+		for f := range s[sec] {
+			s[sec][f] = v
+		}
+	}
+	if dev != "" {
+		s[vmcommon.BaseOperationCostString][dev] = v + delta
+		for f := range s[vmcommon.BuiltInCostString] {
+			s[vmcommon.BuiltInCostString][f] = v + delta
+		}
+	}
+	return s
+}
+
+// NewLiteOn builds the container under the given schedule.
+func NewLiteOn(sched map[string]map[string]uint64) *Lite {
+	n := &Notifier{}
+	f, err := builtInFunctions.NewBuiltInFunctionsFactory(builtInFunctions.ArgsCreateBuiltInFunctionContainer{
+		GasMap: sched, MapDNSAddresses: map[string]struct{}{}, Marshalizer: liteMarshal{}, Accounts: liteAdapter{},
+		ShardCoordinator: liteCoord{}, EpochNotifier: n, ESDTNFTImprovementV1ActivationEpoch: 1,
+	})
+	if err != nil {
+		panic(err)
+	}
+	c, err := f.CreateBuiltInFunctionContainer()
+	if err != nil {
+		panic(err)
+	}
+	if err := builtInFunctions.SetPayableHandler(c, litePayable{}); err != nil {
+		panic(err)
+	}
+	for _, s := range n.Subs {
+		s.EpochConfirmed(1, 0)
+	}
+	return &Lite{Factory: f, Container: c, Notifier: n}
+}
+
 // Lite is a container built by the real factory over the share-nothing environment.
 type Lite struct {
 	Factory interface {
@@ -647,7 +689,8 @@ func addr(c byte, shard byte) []byte {
 var ExecKinds = []string{"ESDTNFTTransfer", "ESDTNFTCreate", "SaveKeyValue", "MultiESDTNFTTransfer", "ESDTNFTAddURI",
 	"ESDTNFTTransfer/same-shard", "MultiESDTNFTTransfer/same-shard", "ESDTTransfer", "ESDTLocalMint", "ESDTNFTUpdateAttributes",
 	"ESDTTransfer/to-contract-with-call", "ESDTNFTTransfer/same-shard-contract-with-call", "MultiESDTNFTTransfer/same-shard-contract-with-call",
-	"ESDTLocalBurn", "ESDTNFTAddQuantity", "ESDTNFTBurn"}
+	"ESDTLocalBurn", "ESDTNFTAddQuantity", "ESDTNFTBurn",
+	"ESDTNFTTransfer/same-shard-contract-no-call", "MultiESDTNFTTransfer/same-shard-contract-no-call"}
 
 // Gas is the ample gas of the reference executions.
 const Gas = uint64(1_000_000_000)
@@ -736,6 +779,11 @@ func ExecGas(l *Lite, kind string, tok string, gas uint64) ExecResult {
 		args = [][]byte{[]byte(tok), {1}, {1}, localSC, []byte("f"), []byte("x")}
 	case "MultiESDTNFTTransfer/same-shard-contract-with-call":
 		args = [][]byte{localSC, {2}, []byte(tok), {1}, {1}, []byte("F"), {0}, {2}, []byte("f"), []byte("x")}
+	case "ESDTNFTTransfer/same-shard-contract-no-call":
+		// no attached call: the payability of the contract is queried in the middle of the execution
+		args = [][]byte{[]byte(tok), {1}, {1}, localSC}
+	case "MultiESDTNFTTransfer/same-shard-contract-no-call":
+		args = [][]byte{localSC, {2}, []byte(tok), {1}, {1}, []byte("F"), {0}, {2}}
 	case "ESDTLocalBurn":
 		args = [][]byte{[]byte(ftok), {2}}
 	case "ESDTNFTAddQuantity":
